@@ -132,8 +132,21 @@ def llbuild_bin():
 
 # ------------------------------------------------------------------ Coq side
 
+def coq_project_files():
+    out = []
+    for dp, dn, fn in os.walk(COQ):
+        dn[:] = [d for d in dn if d not in ("extracted",)]
+        for f in fn:
+            if f.endswith(".v") and not f.startswith("."):
+                out.append(os.path.relpath(os.path.join(dp, f), COQ))
+    return sorted(out)
+
+
 def coq_setup_makefile():
-    if not os.path.exists(os.path.join(COQ, "Makefile")) or \
+    """_CoqProject lists every .v file under coq/ (regenerated, so areas never edit a shared file)."""
+    proj = "-Q . LLB\n" + "\n".join(coq_project_files()) + "\n"
+    changed = write_if_changed(os.path.join(COQ, "_CoqProject"), proj)
+    if changed or not os.path.exists(os.path.join(COQ, "Makefile")) or \
             os.path.getmtime(os.path.join(COQ, "Makefile")) < os.path.getmtime(os.path.join(COQ, "_CoqProject")):
         sh(["coq_makefile", "-f", "_CoqProject", "-o", "Makefile"], cwd=COQ)
 
